@@ -78,6 +78,10 @@ pub struct Worker {
     // Saved timestamp when a worker is put into an idle state
     pub(crate) idle_timestamp: Instant,
 
+    // Number of tasks that are being retracted from this worker: the retract request was sent
+    // and it is not yet known whether the worker gives the task back or has started it
+    retracting_tasks: u32,
+
     // COLD DATA move it into a box (?)
     pub(crate) last_heartbeat: Instant,
     pub(crate) configuration: WorkerConfiguration,
@@ -184,6 +188,17 @@ impl Worker {
             WorkerAssignment::Sn(a) => a.assigned_tasks.is_empty() && a.prefilled_tasks.is_empty(),
             WorkerAssignment::Mn(_a) => false,
         }) && !self.is_stopping()
+            // ... and so do tasks whose retraction is not resolved yet: the worker may have
+            // started them before the retract request reached it
+            && self.retracting_tasks == 0
+    }
+
+    pub fn retract_started(&mut self) {
+        self.retracting_tasks += 1;
+    }
+
+    pub fn retract_resolved(&mut self) {
+        self.retracting_tasks -= 1;
     }
 
     pub fn insert_sn_task(&mut self, task_id: TaskId, rq: &ResourceRequest) {
@@ -363,6 +378,7 @@ impl Worker {
             stop_reason: None,
             last_heartbeat: now,
             idle_timestamp: now,
+            retracting_tasks: 0,
             blocked_requests: Set::new(),
         }
     }
